@@ -30,9 +30,12 @@ class World:
             d = int.from_bytes(hashlib.sha256(b"party%d" % i).digest(), 'big') % (sm2ref.n - 2) + 1
             P = sm2ref.mul(d, sm2ref.G)
             subj = [('C', 'CN', 0x13), ('ST', 'Beijing', 0x0c), ('O', 'Verification', 0x0c), ('OU', 'Party', 0x0c), ('CN', 'party %d' % i, 0x0c)]
-            serial = [0x1001, 0x7fffffffffffffff, 0x80, 0xffeeddccbbaa99887766554433221100aabb, 5, 6][i - 1]
+            # recipients are found by issuer and serial number: 1 and 2 differ only in the last serial octet, 5 has the serial of 1 under another issuer name
+            # of the same encoded length, 3 and 4 have other lengths (one with a leading zero octet)
+            serial = [0x1001, 0x1002, 0x80, 0xffeeddccbbaa99887766554433221100aabb, 0x1001, 6][i - 1]
+            issuer = self.issuer if i != 5 else [('C', 'CN', 0x13), ('O', 'Verification', 0x0c), ('CN', 'CMS Rood', 0x0c)]
             self.d[i] = d.to_bytes(32, 'big')
-            self.cert[i] = derw.cert(serial, self.issuer, subj, P, NB, NA, [derw.ext_ku(['digitalSignature', 'keyEncipherment'])], self.rd, self.rP, 777 + i)
+            self.cert[i] = derw.cert(serial, issuer, subj, P, NB, NA, [derw.ext_ku(['digitalSignature', 'keyEncipherment'])], self.rd, self.rP, 777 + i)
 
 
 # ---- DER tree (independent of the library) ----
@@ -134,6 +137,10 @@ def body():
             add_make("sign_and_envelop", S, R, rb(20 + nr))
     for nr in range(1, 5):
         add_make("envelop", [], rng.sample([1, 2, 3, 4], nr), rb(47))
+    # recipient sets in which the right RecipientInfo is not the first candidate: same serial length, same serial under another issuer, both orders
+    for R in ([1, 2], [2, 1], [1, 5], [5, 1], [2, 5, 1], [5, 2, 1, 3]):
+        add_make("envelop", [], R, rb(31))
+        add_make("sign_and_envelop", [3], R, rb(29))
     for L in lens:
         ct = rb(L)
         add_make("sign", rng.sample([1, 2, 3, 4], rng.randrange(1, 4)), [], ct)
@@ -157,7 +164,7 @@ def body():
         line["id"] = len(follow) + 1
         follow.append(line); fmeta.append((key, facts))
     for (line, evs, san), m in zip(resA, meta):
-        key = "c16:%s:s%d:r%d:len%d:%s" % (m["op"], len(m["S"]), len(m["R"]), len(m["content"]), m["ctype"])
+        key = "c16:%s:s%d%s:r%d%s:len%d:%s" % (m["op"], len(m["S"]), "".join(map(str, m["S"])) and "[%s]" % "".join(map(str, m["S"])), len(m["R"]), "".join(map(str, m["R"])) and "[%s]" % "".join(map(str, m["R"])), len(m["content"]), m["ctype"])
         c.count(1, key)
         if san or not evs:
             c.violation(key + ":crash", "driver died / sanitizer report: %s" % san, {"line": {k: str(v)[:200] for k, v in line.items()}})
@@ -192,7 +199,7 @@ def body():
                 for prov in ("raw", "der", "pem"):
                     fol(key + ":open:p%d:%s" % (r, prov), dict(base, op=dop, cms=cmshex, rkey=hx(W.d[r]), rcert=hx(W.cert[r]), prov=prov),
                         dict(rightkey=True, tampered=False, nsi=len(m["S"]), expect=expect, expectcerts=expectcerts))
-            outsider = [i for i in range(1, 6) if i not in m["R"]][0]
+            outsider = [i for i in range(1, 7) if i not in m["R"]][0]
             fol(key + ":open:outsider", dict(base, op=dop, cms=cmshex, rkey=hx(W.d[outsider]), rcert=hx(W.cert[outsider]), prov="raw"), dict(rightkey=False, tampered=False, nsi=len(m["S"]), expect=expect))
             fol(key + ":open:recipient-cert-other-key", dict(base, op=dop, cms=cmshex, rkey=hx(W.d[outsider]), rcert=hx(W.cert[m["R"][0]]), prov="raw"), dict(rightkey=False, tampered=False, nsi=len(m["S"]), expect=expect))
             if op == "sign_and_envelop":
